@@ -199,11 +199,14 @@ def run_views(ctx, case):
     d = I.to_dict()
     check_views(ctx, inst, I, "views after to_dict")
     ctx.count("dict_round_trips")
-    J = JobShopInstance.from_matrices(**d)
-    same_instance(ctx, inst, J, name, meta, "from_matrices(**to_dict())")
-    check_views(ctx, inst, J, "views of dict round trip")
-    K = JobShopInstance.from_matrices(**json.loads(json.dumps(d)))
-    same_instance(ctx, inst, K, name, meta, "through JSON")
+    try:
+        J = JobShopInstance.from_matrices(**d)
+        same_instance(ctx, inst, J, name, meta, "from_matrices(**to_dict())")
+        check_views(ctx, inst, J, "views of dict round trip")
+        K = JobShopInstance.from_matrices(**json.loads(json.dumps(d, allow_nan=False)))
+        same_instance(ctx, inst, K, name, meta, "through JSON")
+    except Exception as e:
+        ctx.violation("c14_instance_dict_round_trip_raised", {"error": repr(e)[:200]})
     if set(d) != {"name", "duration_matrix", "machines_matrix", "metadata"}:
         ctx.violation("c14_to_dict_keys", {"keys": sorted(d)})
     if not gen.is_flexible(inst):
@@ -272,15 +275,24 @@ def run_sequences(ctx, case):
     budget = 20 * (r.num_ops + 2) * (r.num_machines + 2)
     ctx.count("schedule_round_trips")
     fp_before = content(run.instance)
-    S2 = with_budget(budget, lambda: Schedule.from_job_sequences(run.instance, [list(s) for s in seqs]))
+    try:
+        S2 = with_budget(budget, lambda: Schedule.from_job_sequences(run.instance, [list(s) for s in seqs]))
+    except Exception as e:
+        ctx.violation("c14_sequences_of_a_dispatcher_built_schedule_rejected",
+                      {"sequences": seqs, "error": repr(e)[:200]})
+        return
     if schedule_triples(S2) != want:
         ctx.violation("c14_from_job_sequences_differs", {"got": schedule_triples(S2), "want": want})
     d = S.to_dict()
     if d["job_sequences"] != seqs or d["metadata"] != S.metadata:
         ctx.violation("c14_schedule_to_dict", {"got": d["job_sequences"], "want": seqs})
-    S3 = Schedule.from_dict(**d)
-    S4 = Schedule.from_dict(**json.loads(json.dumps(d)))
-    S5 = Schedule.from_dict(run.instance, d["job_sequences"], d["metadata"])
+    try:
+        S3 = Schedule.from_dict(**d)
+        S4 = Schedule.from_dict(**json.loads(json.dumps(d)))
+        S5 = Schedule.from_dict(run.instance, d["job_sequences"], d["metadata"])
+    except Exception as e:
+        ctx.violation("c14_schedule_dict_round_trip_raised", {"error": repr(e)[:200], "sequences": seqs})
+        return
     for nm, s in (("from_dict(**to_dict())", S3), ("through JSON", S4), ("with instance object", S5)):
         if schedule_triples(s) != want or s.metadata != S.metadata:
             ctx.violation("c14_schedule_dict_round_trip_differs",
